@@ -14,6 +14,7 @@ GRAPHS = {
     "g8c": (["src", "ps", "pp", "p", "q"], 4),
     "g11": (["src", "p", "last"], 2),
     "g8f": (["src", "src2", "ps", "p", "x"], 4),
+    "g8i": (["ps", "gen", "fin", "extra"], 3),
 }
 
 
